@@ -196,6 +196,10 @@ def softmax_psets(A):
         ps.append(dict(k="bias", j=j, v=-50.0))
     if A >= 2:
         ps.append(dict(k="mixed"))
+        # logits whose spread exceeds the float32 range, and an action masked out with a -inf logit: the log-probability of
+        # an impossible action is -inf (or hugely negative), every other number stays finite
+        ps.append(dict(k="huge"))
+        ps.append(dict(k="masked"))
     return ps
 
 
@@ -222,6 +226,14 @@ def make_softmax(A, net_seed, ps):
         b = np.zeros(A, np.float32)
         b[0], b[-1] = 50.0, -50.0
         L.bias.value = jnp.asarray(b)
+    elif ps["k"] in ("huge", "masked"):
+        b = np.zeros(A, np.float32)
+        if ps["k"] == "huge":
+            b[0], b[-1] = 3e38, -3e38
+        else:
+            b[-1] = -np.inf
+        L.kernel.value = jnp.zeros_like(L.kernel.value)
+        L.bias.value = jnp.asarray(b)
     return SoftmaxPolicy(net)
 
 
@@ -242,14 +254,24 @@ def work_softmax(item, col):
             # for the large-offset parameter set the comparison allows for it (the other sets keep the strict policy)
             slack = 16 * float(np.finfo(np.float32).eps) * float(np.max(np.abs(logits))) if ps["k"] == "levels" else 0.0
 
+            extreme = ps["k"] in ("huge", "masked")
+
             def close_(a, b):
+                if extreme:
+                    # impossible actions (reference -inf or below -1e30): -inf or hugely negative, never nan; the rest as usual
+                    a, b = np.asarray(a, dtype=np.float64), np.asarray(b, dtype=np.float64)
+                    if a.shape != b.shape or np.any(np.isnan(a)):
+                        return False
+                    imp = b < -1e30
+                    return bool(np.all(a[imp] < -1e30)) and (not np.any(~imp) or num.close(a[~imp], b[~imp]))
                 if slack == 0.0:
                     return num.close(a, b)
                 a, b = np.asarray(a, dtype=np.float64), np.asarray(b, dtype=np.float64)
                 return a.shape == b.shape and bool(np.all(np.isfinite(a))) and bool(np.all(np.abs(a - b) <= 1e-5 * np.maximum(1.0, np.abs(b)) + slack))
 
-            lse = np.log(np.sum(np.exp(logits - logits.max(-1, keepdims=True)), -1, keepdims=True)) + logits.max(-1, keepdims=True)
-            logp_ref = logits - lse
+            with np.errstate(all="ignore"):
+                lse = np.log(np.sum(np.exp(logits - logits.max(-1, keepdims=True)), -1, keepdims=True)) + logits.max(-1, keepdims=True)
+                logp_ref = logits - lse
             p_ref = np.exp(logp_ref)
             if np.any(p_ref < 1e-12):
                 col.outcome("softmax_cases_with_negligible_actions")
@@ -619,6 +641,30 @@ def work_tabgreedy(item, col):
                 elif A > 1:
                     # the rows' unique maximisers cover every action, so a value-dependent choice would have shown
                     col.outcome("epsilon1_row_sets_whose_greedy_actions_differ")
+    # tables with several observation axes (Tuple-of-Discrete observation spaces, as make_q_table builds them): the
+    # observation is a tuple of indices, the addressed row has A entries whatever the sizes of the other axes
+    for dims in ((3, 5), (2, A + 3)):
+        tab = np.zeros(dims + (A,), np.float32)
+        for idx in itertools.product(*[range(d) for d in dims]):
+            tab[idx] = rows[(7 * idx[0] + 3 * idx[1] + seed) % len(rows)]
+        jt = jnp.asarray(tab)
+        for idx in itertools.product(*[range(d) for d in dims]):
+            row = tab[idx]
+            for eps, key in itertools.product((0.0, 1.0), kk):
+                d = dict(table_shape=list(tab.shape), observation=list(idx), row=row, epsilon=eps)
+                ok, a = call(col, E, vp.epsilon_greedy_policy, jt, tuple(int(i) for i in idx), eps, key, detail=d)
+                col.tick(1, ("epsgreedy-nd", A, dims, idx, eps) if A > 1 else None)
+                if not ok:
+                    continue
+                if np.asarray(a).shape != () or np.asarray(a).dtype.kind not in "iu":
+                    col.violation(SIG.format(E, K_UNDEF), dict(d, got=repr(a)))
+                    continue
+                a = int(a)
+                col.outcome("epsilon_greedy_calls_on_tables_with_several_observation_axes")
+                if not (0 <= a < A):
+                    col.violation(SIG.format(E, K_RANGE), dict(d, action=a))
+                elif eps == 0.0 and row[a] != row.max():
+                    col.violation(SIG.format(E, K_EPS0), dict(d, action=a))
     col.sample(dict(kind="tabgreedy", A=A, n_rows=len(rows), values=TAB_VALUES))
 
 
